@@ -29,6 +29,18 @@ static std::string wild_comment(Src &s, const GFile &f0, bool allow_indent, bool
       default: t += "=#;: \t\"[]"[s.below(10)]; break;
     }
   }
+  // "whatever it contains" includes its length: now and then the text is blown up to a length around a multiple
+  // of the stdio buffer size (a reader that splits a long line turns the tail of the comment into input)
+  if (s.chance(3)) {
+    static const size_t L[] = {8189, 8190, 8191, 8192, 8193, 16382, 16383, 16384, 16385, 24576, 32768, 70001};
+    size_t want = L[s.below(sizeof L / sizeof L[0])] + s.below(3);
+    std::string unit = t + (f.D.empty() ? std::string(" k v ") : std::string(" k") + f.D[0] + "v ") + "[sec] \"q\" ";
+    std::string big;
+    while (big.size() < want) big += unit;
+    big.resize(want);
+    t = big;
+    g_case.tag("long_comment_line");
+  }
   ncc = 1;
   structural = false;
   for (char ch : t) {
